@@ -246,8 +246,15 @@ def run_lines(exe, lines, timeout=1800, env=None):
     e = dict(os.environ); e.setdefault('ASAN_OPTIONS', 'detect_leaks=0:abort_on_error=0:allocator_may_return_null=1')
     e.setdefault('UBSAN_OPTIONS', 'print_stacktrace=1')
     if env: e.update(env)
+    argv = exe if isinstance(exe, list) else [exe]
+    pre = None
+    if '.lake' in argv[0]:
+        # compiled Lean drivers: cap memory (a model that is fed a broken generated decoder must not eat the machine)
+        def pre():
+            import resource
+            resource.setrlimit(resource.RLIMIT_AS, (12 << 30, 12 << 30))
     try:
-        p = subprocess.run([exe], input=data, capture_output=True, text=True, timeout=timeout, env=e)
+        p = subprocess.run(argv, input=data, capture_output=True, text=True, timeout=timeout, env=e, preexec_fn=pre)
     except subprocess.TimeoutExpired as ex:
         return ((ex.stdout or b'').decode(errors='replace').split('\n') if isinstance(ex.stdout, bytes) else (ex.stdout or '').split('\n'),
                 -999, 'timeout after %ss' % timeout)
